@@ -1,5 +1,11 @@
-(* Tie lemma: Scores.auc regenerated from the current source = hand model, for all inputs. *)
+(* Tie lemma: Scores.auc regenerated from the current source = hand model, for all inputs.  The second script
+   covers a regenerated term in which part of the body sits in an inlined helper (the destructuring lets around an
+   if-expression are then nested differently and only agree after a case split on the conditions). *)
 From SA Require Import Model.Auc.
 From Gen Require Import Gen_auc.
 Lemma tie_auc : forall succ pred s lower upper xa ya, gen_auc succ pred s lower upper xa ya = auc succ pred s lower upper xa ya.
-Proof. intros. unfold gen_auc, auc, auc_points. reflexivity. Qed.
+Proof.
+  intros. unfold gen_auc, auc, auc_points.
+  first [ reflexivity
+        | cbv zeta; repeat (match goal with |- context [if ?c then _ else _] => destruct c eqn:? end); reflexivity ].
+Qed.
